@@ -1362,9 +1362,14 @@ func (t *FnTrans) siteHook(kind string, in ssa.Instruction, b *ssa.BasicBlock, i
 				env.vars[fmt.Sprintf("result%d", i)] = t.val(a)
 			}
 		}
+		if mu, ok := in.(*ssa.MapUpdate); ok {
+			// map update (hook runs before the instruction): the key and the value being stored
+			env.vars["key"], env.vars["value"] = t.val(mu.Key), t.val(mu.Value)
+		}
 		if lk, ok := in.(*ssa.Lookup); ok {
 			// map read (hook runs after the instruction): value / ok of the lookup
 			v := t.val(lk)
+			env.vars["key"] = t.val(lk.Index)
 			if v.K == VTuple && len(v.Sub) == 2 {
 				env.vars["value"], env.vars["ok"] = v.Sub[0], v.Sub[1]
 			} else {
